@@ -88,10 +88,16 @@ class FixSession(common.AsyncSession):
         msg.Header.SenderSubID = self.sender_sub_id
         msg.Header.TargetCompID = self.target_comp_id
         msg.Header.SenderCompID = self.sender_comp_id
-        msg.Header.MsgSeqNum = next(self.sequence)
+        seq_num = next(self.sequence)
+        msg.Header.MsgSeqNum = seq_num
         msg.Header.SendingTime = datetime.now(timezone.utc).strftime("%Y%m%d-%H:%M:%S")
 
-        data = self._prepare_complete_msg(msg)
+        try:
+            data = self._prepare_complete_msg(msg)
+        except Exception:
+            # nothing was written: give the number back, the next message must not leave a gap
+            self.sequence = count(seq_num)
+            raise
         self.log.debug('%s> sent message[%s]: %s', self.session_id, msg.Name, data)
         self._transport.write(data)
         self.log.debug('%s> sent message[%s]: %s', self.session_id, msg.Name, msg.as_collection())
